@@ -140,6 +140,22 @@ func (env *Env) parseType(text string) types.Type {
 			return tn.Type()
 		}
 	}
+	// a type parameter of the (generic) function the contract belongs to: its type argument in this
+	// instantiation, or the parameter itself in the uninstantiated origin
+	for f := env.fn; f != nil; f = f.Parent() {
+		tps := f.TypeParams()
+		if o := f.Origin(); o != nil {
+			tps = o.TypeParams()
+		}
+		for i := 0; tps != nil && i < tps.Len(); i++ {
+			if tps.At(i).Obj().Name() == text {
+				if tas := f.TypeArgs(); i < len(tas) {
+					return tas[i]
+				}
+				return tps.At(i)
+			}
+		}
+	}
 	if pn, tn, ok := strings.Cut(text, "."); ok {
 		for _, p := range env.u.E.ByName[pn] {
 			if o, ok := p.Scope().Lookup(tn).(*types.TypeName); ok {
@@ -782,6 +798,19 @@ func (env *Env) call(x *ECall) SVal {
 			fail("no traced argument %s of callback %s", jn.V, sname.V)
 		}
 		h := "T_arg_" + key
+		return env.sv(sel(env.cur.heap(h, "(Array Int "+d.SortOf(t)+")"), i.T), t)
+	case "tres":
+		// tres("Name", i): first result of event i, which must be an event of the traced callback Name
+		sname, ok := x.Args[0].(*EStr)
+		if !ok {
+			fail("tres(\"Name\", eventIndex)")
+		}
+		i := env.value(env.eval(x.Args[1]))
+		t, ok := u.traceArgType[sname.V+"_res"]
+		if !ok {
+			fail("no traced result of callback %s", sname.V)
+		}
+		h := "T_res_" + sname.V
 		return env.sv(sel(env.cur.heap(h, "(Array Int "+d.SortOf(t)+")"), i.T), t)
 	case "kind":
 		// kind("Name"): the event kind of a traced callback of the function under verification
